@@ -14,7 +14,7 @@ import (
 // decoded again.  A transport-level failure (no registration, GARBAGE_ARGS,
 // un-decodable reply) panics: the sequential checks then report it.
 type XDRProxy struct {
-	regs map[uint32]func(*xdr.XdrState) (xdr.Xdrable, error)
+	regs  map[uint32]func(*xdr.XdrState) (xdr.Xdrable, error)
 	Calls int64
 }
 
